@@ -79,6 +79,12 @@ def tasks(tier, seed):
     for t in c09.tasks(tier, seed):
         if t[0] == 'hist':
             T.append(('hist',) + tuple(t[1:]))
+    # runs that do not start at time zero (and end before it): records keyed by end times must carry the true ones
+    T.append(('hist', 2, 1, 3, False, True, [], {'shrink': False, 't0': -1.0}))
+    T.append(('hist', 1, 1, 2, True, False, [], {'shrink': False, 't0': -0.125}))
+    if not quick:
+        T.append(('hist', 3, 1, 4, True, True, [], {'shrink': True, 't0': -2.0}))
+        T.append(('hist', 2, 2, 3, False, False, [], {'shrink': False, 't0': 1.5}))
     return T
 
 
@@ -454,7 +460,7 @@ def hist_case(rep, NP, MAXR, NSTEPS, FIRST, CRASH, prefix, shrink=False):
 
     opts = shrink
     shrink, NL_ = c09.hist_opts(opts)
-    name = f'hist/NP{NP}/maxr{MAXR}/steps{NSTEPS}/first{int(FIRST)}/crash{int(CRASH)}' + ('/shrink' if shrink else '') + (f'/NL{NL_}' if NL_ > 1 else '')
+    name = f'hist/NP{NP}/maxr{MAXR}/steps{NSTEPS}/first{int(FIRST)}/crash{int(CRASH)}' + ('/shrink' if shrink else '') + (f'/NL{NL_}' if NL_ > 1 else '') + (f'/t0={opts["t0"]}' if isinstance(opts, dict) and opts.get('t0') else '')
     Hooks.add_to_stats = _rec_add
     orig_eval = testequation0d.eval_f
 
